@@ -539,7 +539,7 @@ def s2c(ctx):
         r = ctx.tlc('Gen_BQLSession', 'Gen_BQLSession_setup%s.cfg' % name, leg='GEN-setup', workers=1)
         setups[name] = r.printed[0]
     runs = [('Gen_BQLSession_q3.cfg', '3', None)] if ctx.quick else [('Gen_BQLSession_t3.cfg', '5', None), ('Gen_BQLSession_t4.cfg', '2', None)]
-    nsim = ctx.pick(600, 12000)
+    nsim = ctx.pick(600, 8000)
     w = ctx.pick(4, 16)
     runs.append(('Gen_BQLSession_sim.cfg', '5', 'num=%d' % max(1, nsim // (w * 12))))
     sessions = {}
